@@ -40,6 +40,7 @@ Sixth round: C02.1 Server.remove gives capacity back additively (found by role);
 Seventh round: C02.6 the routines that decide whether an instance holds an identity test `is None`, never the truth value (identity 0 is an identity; shared with C05).
 Eighth round: C02.1 TraitSet.add stores the child's entry and folds the aggregate again on every path, TraitSet.remove skips the deletion only for a child without an entry; C02.7 the affinity of an instance is set by its constructor only (shared with C04.1).
 Ninth round: C02.4 the memo key keeps the level of every affinity limit - where the key closure reads the limits mapping, one read takes its items or a subscript per level (F19: Affinity.constraints carries sorted values only, so {'rack': 1} and {'server': 1} shared a record; repaired in /repo). Also C02.4: a derived attribute (Allocation.constraints) covers a source attribute in the memo key only while every method that re-assigns the source refreshes it; C02.1 the recompute routine is located by role (it looks at the children) and a vector written through out= counts as a store.
+Tenth round: C02.5 a placement strategy wraps its kept index for every value at or beyond the end of the children (the list can be rebound shorter by the reload of the cell; F30, repaired in /repo); C02.3 the memo rule reads the key helper by role; C02.7 the head-room answer may be spelled True / False under count < limit and its negation.
 Does NOT decide the liveness statement as a whole (quiescent states reached
 by histories) nor the strategies' index arithmetic.
 """
@@ -1245,6 +1246,67 @@ def _exact_fit(ctx, nz):
                N.show(atom))
 
 
+
+def _strategy_index(ctx):
+    """C02.5: the child a placement strategy suggests exists.  A strategy
+    keeps its position between calls (an attribute of the object), while the
+    list it indexes belongs to the bucket and can be rebound to a shorter one
+    by another routine (the reload of the cell re-initialises the children):
+    the wrap-around test must therefore cover *every* index at or beyond the
+    end (>=, or a modulo), not just the one equal to the length - otherwise
+    the next walk raises instead of offering the instance to the children
+    that fit."""
+    mod = ctx.index.module(K.SCHED)
+    node_cls = ctx.index.get_class(K.SCHED, 'Node')
+    rebinds = []
+    for cls in mod.classes.values():
+        for func in cls.methods.values():
+            if func.name == '__init__':
+                continue
+            for sub in K.walk_no_nested(func.raw):
+                if isinstance(sub, ast.Assign) and any(
+                        N.txt(t) == 'self.children' for t in sub.targets):
+                    rebinds.append(func.qualname)
+    judged = 0
+    for cls in mod.classes.values():
+        for func in cls.methods.values():
+            sites = [sub for sub in K.walk_no_nested(func.raw)
+                     if isinstance(sub, ast.Subscript) and
+                     N.txt(sub.value).endswith('.children') and
+                     N.txt(sub.slice).startswith('self.') and
+                     isinstance(sub.ctx, ast.Load)]
+            if not sites:
+                continue
+            idx = N.txt(sites[0].slice)
+            lst = N.txt(sites[0].value)
+            tests = [sub for sub in K.walk_no_nested(func.raw)
+                     if isinstance(sub, ast.Compare) and len(sub.ops) == 1
+                     and {N.txt(sub.left), N.txt(sub.comparators[0])} ==
+                     {idx, 'len(%s)' % lst}]
+            modulo = any(isinstance(sub, ast.BinOp) and
+                         isinstance(sub.op, ast.Mod) and
+                         N.txt(sub.right) == 'len(%s)' % lst
+                         for sub in K.walk_no_nested(func.raw))
+            if not tests and not modulo:
+                continue
+            judged += 1
+            exact = [t for t in tests
+                     if isinstance(t.ops[0], (ast.Eq, ast.Is))]
+            ok = modulo or not exact or not rebinds
+            ctx.ob('C02.5', func, exact[0] if exact else sites[0], ok,
+                   'the kept index %s wraps around for every value at or '
+                   'beyond the end of %s' % (idx, lst) if ok else
+                   'the kept index %s wraps around only when it *equals* '
+                   'len(%s); %s rebinds the children to a list that can be '
+                   'shorter, the index is then beyond the end and the walk '
+                   'raises IndexError instead of offering the instance to '
+                   'the children that fit' % (idx, lst, ', '.join(
+                       sorted(set(rebinds)))),
+                   construct='strategy index stays inside the children')
+    ctx.require(judged >= 1, 'wrap-around test of a placement strategy',
+                rule='C02.5')
+
+
 def _identity_release(ctx):
     loop = PlacementLoop(ctx)
     reached = loop.reached
@@ -1272,6 +1334,7 @@ def _identity_release(ctx):
 
 
 def check(ctx):
+    _strategy_index(ctx)
     _up, down, nz = _aggregates(ctx)
     _shortcut(ctx, down, nz)
     tracker = _memo(ctx, nz)
@@ -1305,6 +1368,17 @@ def check(ctx):
 _S = 'lib/python/treadmill/scheduler/__init__.py'
 
 MUTANTS = [
+    ('revert-F30-strategy-index-wraps-on-equality-only', [(_S, """    def suggested_node(self):
+        \"\"\"Suggest next node from the cycle.
+        \"\"\"
+        for _ in six.moves.xrange(0, len(self.node.children)):
+            if self.current_idx >= len(self.node.children):
+""", """    def suggested_node(self):
+        \"\"\"Suggest next node from the cycle.
+        \"\"\"
+        for _ in six.moves.xrange(0, len(self.node.children)):
+            if self.current_idx == len(self.node.children):
+""")], 'C02.5'),
     ('revert-F19-memo-key-drops-limit-levels', [(_S, """        limits = tuple(sorted(
             (level, limit)
             for level, limit in six.iteritems(app.affinity.limits)
